@@ -5,6 +5,7 @@ import (
 	"fmt"
 	"strings"
 	"testing"
+	"unicode"
 
 	"github.com/TimothyStiles/poly/seqhash"
 	"pgregory.net/rapid"
@@ -19,6 +20,10 @@ type Case struct {
 	DS     bool        `json:"double_stranded"`
 	Other  *vk.SeqSpec `json:"other,omitempty"`  // partner under the same flags: equal hash <=> same molecule
 	Reject bool        `json:"reject,omitempty"` // the input must be rejected with an error and an empty hash
+	// FoldAs (with Reject): the input holds a non-ASCII letter that Unicode case folding relates to a letter of the
+	// alphabet (long s, dotless i, Kelvin sign). Either it is rejected, or it is read as that letter: then the hash
+	// must be the hash of FoldAs. Being hashed as something else is the violation.
+	FoldAs string `json:"fold_as,omitempty"`
 }
 
 const (
@@ -75,6 +80,12 @@ func check(c Case) error {
 	}
 	h, err := seqhash.Hash(s, c.Type, c.Circ, c.DS)
 	if c.Reject {
+		if err == nil && c.FoldAs != "" {
+			if hf, errf := seqhash.Hash(c.FoldAs, c.Type, c.Circ, c.DS); errf == nil && hf == h {
+				return nil // read as a case variant of an alphabet letter
+			}
+			return vk.Errf("Hash(%q, %q, circular=%v, doubleStranded=%v) = %q: a letter outside the alphabet is neither rejected nor read as its case-folding partner %q", s, c.Type, c.Circ, c.DS, h, c.FoldAs)
+		}
 		if err == nil {
 			return vk.Errf("Hash(%q, %q, circular=%v, doubleStranded=%v) = %q without an error; the input must be rejected", s, c.Type, c.Circ, c.DS, h)
 		}
@@ -325,6 +336,51 @@ func TestSub_reject(t *testing.T) {
 	})
 }
 
+var subUnicode = vk.Register(&vk.Sub[Case]{Name: "unicode", Check: check, NonTrivial: nonTrivial, Sample: sample})
+
+// unicode: every Unicode code point that is not an ASCII letter of the type's alphabet, alone and inside a valid
+// sequence, for the three molecule types: rejected - or, for the few code points that case folding relates to an
+// alphabet letter, read as that letter.
+func TestSub_unicode(t *testing.T) {
+	vk.RunEnum(t, subUnicode, "every code point U+0080..U+10FFFF (surrogates excepted) alone, and the Basic Multilingual Plane inside a valid sequence, x 3 molecule types", true, func(yield func(Case) bool) {
+		for _, typ := range []string{"DNA", "RNA", "PROTEIN"} {
+			alphabet, host := nucleicAlphabet, "ACGT"
+			if typ == "PROTEIN" {
+				alphabet, host = proteinAlphabet, "MKV*"
+			}
+			for r := rune(0x80); r <= unicode.MaxRune; r++ {
+				if r >= 0xd800 && r <= 0xdfff {
+					continue
+				}
+				// the case relatives of r: its simple-folding orbit and its upper, lower and title forms (dotless i has
+				// an upper-case form but no simple folding)
+				fold := ""
+				relatives := []rune{unicode.ToUpper(r), unicode.ToLower(r), unicode.ToTitle(r)}
+				for f := unicode.SimpleFold(r); f != r; f = unicode.SimpleFold(f) {
+					relatives = append(relatives, f)
+				}
+				for _, f := range relatives {
+					if f < 0x80 && strings.ContainsRune(alphabet, unicode.ToUpper(f)) {
+						fold = string(unicode.ToUpper(f))
+					}
+				}
+				if !yield(Case{Seq: vk.SeqSpec{Lit: string(r)}, Type: typ, Reject: true, FoldAs: fold}) {
+					return
+				}
+				if r <= 0xffff {
+					foldIn := ""
+					if fold != "" {
+						foldIn = host[:2] + fold + host[2:]
+					}
+					if !yield(Case{Seq: vk.SeqSpec{Lit: host[:2] + string(r) + host[2:]}, Type: typ, Circ: r%2 == 0, Reject: true, FoldAs: foldIn}) {
+						return
+					}
+				}
+			}
+		}
+	})
+}
+
 func gen(t *rapid.T) Case {
 	typ := rapid.SampledFrom([]string{"DNA", "DNA", "RNA", "PROTEIN"}).Draw(t, "type")
 	c := Case{Type: typ, Circ: rapid.Bool().Draw(t, "circular")}
@@ -390,5 +446,25 @@ func gen(t *rapid.T) Case {
 }
 
 func TestSub_random(t *testing.T) { vk.RunRapid(t, subRandom) }
+
+var subCollisions = vk.Register(&vk.Sub[Case]{Name: "collisions", Check: check, NonTrivial: nonTrivial, Sample: sample})
+
+// TestSub_collisions: the two sequences of every checksum-colliding pair (vk.CollidingPairs) hashed one after the
+// other under every flag pair: each gets its own v1 value, and the two values differ.
+func TestSub_collisions(t *testing.T) {
+	vk.RunEnum(t, subCollisions, "every checksum-colliding pair of 30-mers x both orders x 4 flag pairs x {DNA, RNA}", true, func(yield func(Case) bool) {
+		for _, pr := range vk.CollidingPairs() {
+			for _, fp := range flagPairs {
+				for _, typ := range []string{"DNA", "RNA"} {
+					for _, o := range [][2]string{{pr.A, pr.B}, {pr.B, pr.A}} {
+						if !yield(Case{Seq: vk.SeqSpec{Lit: o[0]}, Other: &vk.SeqSpec{Lit: o[1]}, Type: typ, Circ: fp[0], DS: fp[1]}) {
+							return
+						}
+					}
+				}
+			}
+		}
+	})
+}
 
 func TestReplay(t *testing.T) { vk.Replay(t) }
